@@ -10,6 +10,7 @@ import (
 
 	"github.com/trustbloc/sidetree-go/pkg/api/operation"
 	"github.com/trustbloc/sidetree-go/pkg/api/protocol"
+	"github.com/trustbloc/sidetree-go/pkg/jws"
 )
 
 // Delta is the abstract delta of Applier.tla.
@@ -196,6 +197,11 @@ func equivRefs(eq int) []string {
 		return nil
 	}
 
+	// odd ids: a repeated entry followed by another one (the list is carried as given)
+	if eq%2 == 1 {
+		return []string{fmt.Sprintf("eq-%d-a", eq), fmt.Sprintf("eq-%d-a", eq), fmt.Sprintf("eq-%d-b", eq)}
+	}
+
 	return []string{fmt.Sprintf("eq-%d-a", eq), fmt.Sprintf("eq-%d-b", eq)}
 }
 
@@ -334,7 +340,7 @@ func (c *Concretizer) buildDelta(o *ROp) map[string]interface{} {
 		}
 	}
 
-	if o.Nuv == "reuse_signing" && delta != nil {
+	if (o.Nuv == "reuse_signing" || o.Nuv == "reuse_signing_other_alg") && delta != nil {
 		// the next update commitment is the commitment of the key that signs this operation
 		signer := c.pool.Get(o.Kt, fmt.Sprintf("sig%d", o.Nr))
 		jwk := cloneJWK(signer.JWK)
@@ -343,7 +349,12 @@ func (c *Concretizer) buildDelta(o *ROp) map[string]interface{} {
 			jwk.Nonce = b64(seedBytes(c.seed, "nonce/"+signer.Name, 16))
 		}
 
-		delta["updateCommitment"] = refCommitment(jwkMap(jwk), algCode(o.H))
+		a := algCode(o.H)
+		if o.Nuv == "reuse_signing_other_alg" {
+			a = sha2_256 + sha2_512 - a
+		}
+
+		delta["updateCommitment"] = refCommitment(jwkMap(jwk), a)
 	}
 
 	return delta
@@ -422,6 +433,12 @@ func (c *Concretizer) buildRequest(o *ROp, variant int) ([]byte, int) {
 	case "reuse":
 		// the next recovery commitment is the commitment of the key that signs this operation
 		recCommit = refCommitment(jwk, alg)
+	case "reuse_other_alg":
+		// ... computed with the other configured algorithm
+		recCommit = refCommitment(jwk, sha2_256+sha2_512-alg)
+	case "rsakey":
+		// an RSA key: well formed, but RSA is not among the allowed key algorithms
+		jwk = &jws.JWK{Kty: "RSA", N: "sXchDaQebHnPiGvyDOAT4saGEUetSyo9MKLOoWFsueri23bOdgWp4Dy1WlUzewbgBHod5pcM9H95GQRV3JDXboIRROSBigeC5yjU1hGzHHyXss8UDprecbAYxknTcQkhslANGRUZmdTOQ5qTRsLAt6BTYuyvVRdhS8exSZEy_c4gs_7svlJJQ4H9_NxsiIoLwAEk7-Q3UXERGYw_75IDrGA84-lA_-Ct4eTlXHBIY2EaV7t7LjJaynVJCpkv4LKjTTAumiGUIuQhrNhZLuF_RJLqHpM2kgWFLU7-VTdL1VbC2tejvcI2BlMkEpk1BzBZI0KQB0GaDWFLN-aEAw3vRw", E: "AQAB"}
 	}
 
 	if o.KeyNonce && o.Wf != "nonce" {
